@@ -141,9 +141,24 @@ def exists_at_start(spec):
     return ex
 
 
+def recorded_items(spec, stepname, pat):
+    """glob-items recorded by the last successful run (only second runs have any)."""
+    return spec.get("recorded", {}).get(stepname, {}).get(pat, [])
+
+
 def code_edges(spec):
     ex = exists_at_start(spec)
-    return edges_of(spec, lambda d, o: code_reads(d, o, ex))
+    names = [s["name"] for s in spec["steps"]]
+    es = set()
+    for r in spec["steps"]:
+        for d in r["deps"]:
+            if d[0] == "step" and d[1] in names:
+                es.add((r["name"], d[1]))
+        for p in spec["steps"]:
+            for o in p["outs"]:
+                if any(code_reads(d, o, ex, recorded_items(spec, r["name"], d[1]) if d[0] == "glob_items" else ()) for d in r["deps"]):
+                    es.add((r["name"], p["name"]))
+    return es
 
 
 def has_cycle(names, es):
@@ -302,22 +317,100 @@ def _kill_group(p):
         pass
 
 
+def _one_run(env, spec, rr, root, base, e, certify, bound):
+    journal = os.path.join(base, "journal")
+    trace = os.path.join(base, "trace.jsonl")
+    for f in (journal, trace):
+        open(f, "w").close()
+    e = dict(e)
+    e["XVC_VERIF_TRACE"] = trace
+    if spec.get("jitter") is not None:
+        e["XVC_VERIF_JITTER"] = str(spec["jitter"])
+    t0 = time.time()
+    outf = open(os.path.join(base, "stdout"), "wb")
+    errf = open(os.path.join(base, "stderr"), "wb")
+    proc = subprocess.Popen([env.xvc, "-c", "pipeline.process_pool_size=%d" % spec["pool"], "pipeline", "run"],
+                            cwd=root, env=e, stdout=outf, stderr=errf, stdin=subprocess.DEVNULL, start_new_session=True)
+    rr.hung, rr.certified, rr.uncertified_timeout, rr.dead_thread = False, False, False, False
+    next_look = HANG_FIRST_LOOK
+    while True:
+        try:
+            proc.wait(timeout=0.05 if time.time() - t0 < 1 else 0.25)
+            break
+        except subprocess.TimeoutExpired:
+            pass
+        el = time.time() - t0
+        if el >= next_look:
+            next_look = el + 4.0
+            try:
+                quiet = time.time() - os.path.getmtime(trace)
+            except OSError:
+                quiet = el
+            if quiet >= HANG_QUIET and certify is not None:
+                lines = read_lines(trace)
+                if dead_without_verdict(lines):
+                    # a step thread ended without a terminal state: the oracle reports that by
+                    # itself; whether the process then hangs or exits is not modelled
+                    rr.hung, rr.dead_thread = True, True
+                    _kill_group(proc)
+                    break
+                if certify(spec, lines):
+                    rr.hung, rr.certified = True, True
+                    _kill_group(proc)
+                    break
+        if el >= bound:
+            rr.hung = True
+            lines = read_lines(trace)
+            rr.certified = bool(certify and certify(spec, lines))
+            rr.dead_thread = dead_without_verdict(lines)
+            rr.uncertified_timeout = not rr.certified and not rr.dead_thread
+            _kill_group(proc)
+            break
+    rr.secs = time.time() - t0
+    rr.rc = proc.returncode
+    outf.close(); errf.close()
+    # whatever the commands left behind (children of a killed run) must not outlive the case
+    try:
+        os.killpg(proc.pid, signal.SIGKILL)
+    except OSError:
+        pass
+    rr.out = open(os.path.join(base, "stdout"), "r", errors="replace").read()
+    rr.err = open(os.path.join(base, "stderr"), "r", errors="replace").read()
+    rr.journal = [l.split() for l in read_lines(journal) if len(l.split()) == 3]
+    rr.trace = read_lines(trace)
+    rr.failed = rr.rc != 0 or "[ERROR]" in rr.err + rr.out or "panicked" in rr.err
+    return rr
+
+
+def recorded_from_export(env, root, e):
+    """{step: {glob: [paths]}} of the glob-items dependencies, from `xvc pipeline export`."""
+    p = subprocess.run([env.xvc, "pipeline", "export", "--format", "json"], cwd=root, env=e, stdout=subprocess.PIPE,
+                       stderr=subprocess.PIPE, text=True, errors="replace", timeout=120)
+    out = {}
+    try:
+        data = json.loads(p.stdout)
+        for st in data["steps"]:
+            for d in st["dependencies"]:
+                if "GlobItems" in d:
+                    out.setdefault(st["name"], {})[d["GlobItems"]["glob"]] = sorted(d["GlobItems"]["xvc_path_metadata_map"].keys())
+    except (ValueError, KeyError):
+        return None
+    return out
+
+
 def run_spec(env, spec, certify=None, bound=HANG_BOUND, keep=False):
-    """runs one pipeline; returns a RunResult with journal / trace / exit information.
-    certify(trace_lines) -> bool is asked, for a run that has not exited, whether the model
+    """runs one pipeline; returns a list of RunResult (one, or two when the spec has a "second" run)
+    with journal / trace / exit information; rr.spec is the spec the run is judged against.
+    certify(spec, trace_lines) -> bool is asked, for a run that has not exited, whether the model
     certifies the state at the end of the trace as stuck."""
-    rr = RunResult()
-    rr.spec = spec
     base = C.scratch_dir("sched")
-    rr.base = base
+    out = []
     try:
         root = os.path.join(base, "r")
         home = os.path.join(base, "home")
         shutil.copytree(env.template.root, root, symlinks=True)
         os.makedirs(os.path.join(home, ".config"))
         journal = os.path.join(base, "journal")
-        trace = os.path.join(base, "trace.jsonl")
-        open(journal, "w").close()
         for d in spec["dirs"]:
             os.makedirs(os.path.join(root, d), exist_ok=True)
             with open(os.path.join(root, d, "inside.txt"), "w") as fh:
@@ -332,65 +425,41 @@ def run_spec(env, spec, certify=None, bound=HANG_BOUND, keep=False):
         e.update({"HOME": home, "XDG_CONFIG_HOME": os.path.join(home, ".config"), "RUST_BACKTRACE": "0", "TZ": "UTC"})
         p = subprocess.run([env.xvc, "pipeline", "import", "--file", os.path.join(base, "pipeline.json"), "--overwrite"],
                            cwd=root, env=e, stdout=subprocess.PIPE, stderr=subprocess.PIPE, text=True, errors="replace", timeout=120)
+        first = {k: v for k, v in spec.items() if k != "second"}
+        rr = RunResult()
+        rr.spec, rr.base = first, base
         rr.import_failed = p.returncode != 0 or "[ERROR]" in p.stderr + p.stdout or "panicked" in p.stderr
         rr.import_err = (p.stderr + p.stdout)[-400:]
-        e["XVC_VERIF_TRACE"] = trace
-        if spec.get("jitter") is not None:
-            e["XVC_VERIF_JITTER"] = str(spec["jitter"])
-        t0 = time.time()
-        outf = open(os.path.join(base, "stdout"), "wb")
-        errf = open(os.path.join(base, "stderr"), "wb")
-        proc = subprocess.Popen([env.xvc, "-c", "pipeline.process_pool_size=%d" % spec["pool"], "pipeline", "run"],
-                                cwd=root, env=e, stdout=outf, stderr=errf, stdin=subprocess.DEVNULL, start_new_session=True)
-        rr.hung, rr.certified, rr.uncertified_timeout, rr.dead_thread = False, False, False, False
-        next_look = HANG_FIRST_LOOK
-        while True:
-            try:
-                proc.wait(timeout=0.05 if time.time() - t0 < 1 else 0.25)
-                break
-            except subprocess.TimeoutExpired:
-                pass
-            el = time.time() - t0
-            if el >= next_look:
-                next_look = el + 4.0
-                try:
-                    quiet = time.time() - os.path.getmtime(trace)
-                except OSError:
-                    quiet = el
-                if quiet >= HANG_QUIET and certify is not None:
-                    lines = read_lines(trace)
-                    if dead_without_verdict(lines):
-                        # a step thread ended without a terminal state: the oracle reports that by
-                        # itself; whether the process then hangs or exits is not modelled
-                        rr.hung, rr.dead_thread = True, True
-                        _kill_group(proc)
-                        break
-                    if certify(spec, lines):
-                        rr.hung, rr.certified = True, True
-                        _kill_group(proc)
-                        break
-            if el >= bound:
-                rr.hung = True
-                lines = read_lines(trace)
-                rr.certified = bool(certify and certify(spec, lines))
-                rr.dead_thread = dead_without_verdict(lines)
-                rr.uncertified_timeout = not rr.certified and not rr.dead_thread
-                _kill_group(proc)
-                break
-        rr.secs = time.time() - t0
-        rr.rc = proc.returncode
-        outf.close(); errf.close()
-        # whatever the commands left behind (children of a killed run) must not outlive the case
-        try:
-            os.killpg(proc.pid, signal.SIGKILL)
-        except OSError:
-            pass
-        rr.out = open(os.path.join(base, "stdout"), "r", errors="replace").read()
-        rr.err = open(os.path.join(base, "stderr"), "r", errors="replace").read()
-        rr.journal = [l.split() for l in read_lines(journal) if len(l.split()) == 3]
-        rr.trace = read_lines(trace)
-        rr.failed = rr.rc != 0 or "[ERROR]" in rr.err + rr.out or "panicked" in rr.err
-        return rr
+        _one_run(env, first, rr, root, base, e, certify, bound)
+        out.append(rr)
+        sec = spec.get("second")
+        if sec and not rr.hung and not rr.failed:
+            rec = recorded_from_export(env, root, e)
+            ran = {n for k, n, _ in rr.journal if k == "E"}
+            view = copy.deepcopy(first)
+            for st in view["steps"]:
+                if st["name"] in ran:
+                    for w in st["writes"]:
+                        view["files"].setdefault(w, st["name"] + "\n")
+            view["recorded"] = rec or {}
+            view["_origin"] = strip_spec(spec)
+            view["label"] = first.get("label", "") + ":run2"
+            view["jitter"] = sec.get("jitter", first.get("jitter"))
+            now = time.time()
+            for k, f in enumerate(sec.get("touch", [])):
+                fp = os.path.join(root, f)
+                if os.path.exists(fp):
+                    os.utime(fp, (now + 5 + k, now + 5 + k))
+            for f, txt in sec.get("edit", {}).items():
+                with open(os.path.join(root, f), "w") as fh:
+                    fh.write(txt)
+                view["files"][f] = txt
+            rr2 = RunResult()
+            rr2.spec, rr2.base, rr2.import_failed, rr2.import_err = view, base, False, ""
+            rr2.export_failed = rec is None
+            _one_run(env, view, rr2, root, base, e, certify, bound)
+            out.append(rr2)
+        return out
     finally:
         if not keep:
             C.rm_rf(base)
@@ -506,7 +575,9 @@ def model_cfg(env, spec, verdicts=None, fix=None):
             elif d[0] == "glob":
                 deps.append("G" + ".".join(str(pid(o)) for o in sorted(set(outs_all)) if gmatch(d[1], o)))
             elif d[0] == "glob_items":
-                deps.append("I" + ".".join(str(pid(o)) for o in sorted(set(outs_all)) if gmatch(d[1], o)) + "~")
+                rec = [o for o in recorded_items(spec, s["name"], d[1]) if o in outs_all]
+                deps.append("I" + ".".join(str(pid(o)) for o in sorted(set(outs_all)) if gmatch(d[1], o)) + "~" +
+                            ".".join(str(pid(o)) for o in sorted(set(rec))))
             else:
                 deps.append("N")
         sup, thor = (verdicts or {}).get(s["name"], ("C", "C"))
@@ -816,6 +887,31 @@ def random_graph_spec(rng, nmin=4, nmax=6, label="random"):
                   files=files, label=label)
 
 
+def two_run_spec(rng, label="tworun"):
+    """a random graph whose first run succeeds, then a second run after touching / editing some
+    inputs: steps are skipped (DoneWithoutRunning), re-run because a file changed, or re-run
+    because a step they depend on has run; recorded glob items give edges."""
+    while True:
+        sp = random_graph_spec(rng, 3, 5, label=label)
+        for st in sp["steps"]:
+            st["exit"], st["err"] = 0, min(st["err"], 1000)
+            st["when"] = "D" if st["when"] == "N" else st["when"]
+            st["deps"] = [d for d in st["deps"] if d[0] != "lines"]
+            if rng.random() < 0.6 and not any(d[0] in ("file", "glob", "glob_items") for d in st["deps"]):
+                f = "in_%s.txt" % st["name"]
+                sp["files"][f] = "input\n"
+                st["deps"].append(["file", f])
+        if any(missing_file_dep(sp, st) for st in sp["steps"]):
+            continue
+        inputs = sorted(f for f in sp["files"] if f.startswith("in"))
+        sec = {"touch": [f for f in inputs if rng.random() < 0.4], "edit": {}, "jitter": rng.randrange(1, 1 << 30)}
+        for f in inputs:
+            if f not in sec["touch"] and rng.random() < 0.3:
+                sec["edit"][f] = "edited\n"
+        sp["second"] = sec
+        return sp
+
+
 # ---------------------------------------------------------------------------------------------
 # the engine: run cases in parallel, validate traces, judge
 # ---------------------------------------------------------------------------------------------
@@ -824,7 +920,7 @@ def run_cases(env, specs, workers=None):
     workers = workers or max(4, min(12, (C.NPROC * 3) // 4))
     with ThreadPoolExecutor(workers) as ex:
         rrs = list(ex.map(lambda sp: run_spec(env, sp, certify=certify), specs))
-    return rrs
+    return [rr for l in rrs for rr in l]
 
 
 def validate_traces(env, specs, rrs):
@@ -898,12 +994,17 @@ def judge(prop, spec, rr, info):
 
 
 def rerun_judge(env, prop, spec):
-    rr = run_cases(env, [spec], workers=1)[0]
-    try:
-        info, _ = trace_events(env, spec, rr.trace)
-    except Exception:
-        info = None
-    return rr, info, judge(prop, spec, rr, info)
+    rrs = run_cases(env, [spec], workers=1)
+    res = None
+    for rr in rrs:
+        try:
+            info, _ = trace_events(env, rr.spec, rr.trace)
+        except Exception:
+            info = None
+        res = (rr, info, judge(prop, rr.spec, rr, info))
+        if res[2]:
+            break
+    return res
 
 
 def strip_spec(spec):
@@ -927,7 +1028,7 @@ def probe_p13(env):
     ends or is certified stuck by the model with fixed_P13 = false."""
     sp = mkspec([step("big", err=200000)], pool=2, label="probe:P13")
     env.p13_fixed = False
-    rr = run_spec(env, sp, certify=make_certify(env), bound=HANG_BOUND)
+    rr = run_spec(env, sp, certify=make_certify(env), bound=HANG_BOUND)[0]
     if not rr.hung:
         env.p13_fixed = True
     return sp, rr
@@ -938,6 +1039,7 @@ def drive(chk, env, prop, specs, nontrivial, max_reports=3):
     shrinks and reports.  nontrivial(spec, rr, info) -> bool."""
     t0 = time.time()
     rrs = run_cases(env, specs)
+    specs = [rr.spec for rr in rrs]          # one entry per real run (a spec with a second run gives two)
     t1 = time.time()
     infos, outs, errs, infolines = validate_traces(env, specs, rrs)
     t2 = time.time()
@@ -979,6 +1081,7 @@ def drive(chk, env, prop, specs, nontrivial, max_reports=3):
     for sp, rr, js in failures:
         if len(seen) >= max_reports:
             break
+        sp = sp.get("_origin") or sp        # a failing second run is replayed / shrunk as the two-run scenario
         cur, cur_js = sp, js
         try:
             def still(c):
@@ -987,6 +1090,7 @@ def drive(chk, env, prop, specs, nontrivial, max_reports=3):
             rr2, info2, js2 = rerun_judge(env, prop, small)
             if js2:
                 cur, cur_js, rr = small, js2, rr2
+            klass_spec = rr2.spec if js2 else None
         except Exception as e:
             log("shrink failed: %r" % (e,))
         what, klass = cur_js[0]
@@ -1006,7 +1110,7 @@ def drive(chk, env, prop, specs, nontrivial, max_reports=3):
                   "kind": "broken-correspondence"}, name="corr", has_input=False)
     stats["oracle_failures"] = len(failures)
     stats["correspondence_failures"] = len(corr)
-    return stats, rrs, infos
+    return stats, rrs, infos, specs
 
 
 def table_obligations(chk, env):
